@@ -50,7 +50,7 @@ CHECKS = {
  ),
  "C07": dict(
   category="exploration",
-  text="The real combinators wrap scripted stub strategies that replay chosen action words, so the full space of sub-recommendations is reachable: every tuple of words up to small lengths is enumerated (k=1..3 sub-strategies) and long random words with up to 6 sub-strategies are sampled; outputs are compared with slice models of the specified vote / split / swap / no-loss / stop-loss functions and, independently of the models, with two trace safety monitors stated in the property (no Sell at a close not above the preceding Buy; Sell at the first close at or below buy x (1 - pct)). MACD-RSI is compared with the agreement rule over its own real sub-strategies. Exhaustive within the enumerated scope, sampled beyond.",
+  text="The real combinators wrap scripted stub strategies that replay chosen action words, so the full space of sub-recommendations is reachable: every tuple of words up to small lengths is enumerated (k=1..3 sub-strategies) and long random words with up to 6 sub-strategies are sampled, including groups that list one instance more than once and closes that sit exactly on a stop level (and one ulp beside it); outputs are compared with slice models of the specified vote / split / swap / no-loss / stop-loss functions and, independently of the models, with two trace safety monitors stated in the property (no Sell at a close not above the preceding Buy; Sell at the first close at or below buy x (1 - pct)). MACD-RSI is compared with the agreement rule over its own real sub-strategies. Exhaustive within the enumerated scope, sampled beyond.",
   design_ref="DESIGN.md §3 C07",
   note="Trusted: the models in harness/internal/props/c07.go (No-Loss sells only strictly above the purchase close, as the property states; the type's doc comment says 'at or above'). Unequal word lengths are C03's business.",
   technique="exhaustive small-scope model-based monitoring with scripted stubs + online trace safety monitors",
@@ -64,21 +64,21 @@ CHECKS = {
  ),
  "C09": dict(
   category="exploration",
-  text="For every indicator and strategy one instance is used for a sequence of calls on different inputs and then for 6-8 simultaneous calls at GOMAXPROCS=16; all results must equal those of fresh instances bit for bit, and a reflective deep fingerprint of the instance (unexported fields included) must not change across any call. The same concurrent batches are repeated under the Go race detector (halt_on_error=0; report blocks counted and de-duplicated). 36 small pipelines of parameterised stream helpers (RoundDigits, Shift, Skip, Change, Last, Buffered, ...) with different parameters run side by side and are compared with their solo results. Worker-pool races are covered by C12/C13.",
+  text="For every indicator and strategy one instance is used for a sequence of calls on different inputs and then for 6-8 simultaneous calls at GOMAXPROCS=16; all results must equal those of fresh instances bit for bit, and a reflective deep fingerprint of the instance (unexported fields included) must not change across any call. The same concurrent batches are repeated under the Go race detector (halt_on_error=0; report blocks counted and de-duplicated). The caller's snapshots are compared with copies taken before anything ran (no strategy may write to its input). 36 small pipelines of parameterised stream helpers (RoundDigits, Shift, Skip, Change, Last, Buffered, ...) with different parameters run side by side and are compared with their solo results. Worker-pool races are covered by C12/C13.",
   design_ref="DESIGN.md §3 C09, §1 E4",
   note="Trusted: the race detector only sees executed interleavings (the batch is repeated 3/10 times); concurrent use of one helper.Csv value is not claimed (the library never shares one).",
   technique="Go race detector over concurrent workloads + state-immutability fingerprint + reuse/concurrency equivalence oracle",
  ),
  "C10": dict(
   category="exploration",
-  text="Random operation histories are applied in lock-step to a sequential map model and to the in-memory, file-system and SQL repositories (the SQL one through database/sql over an in-memory driver written for this purpose); every return value and error-ness is compared, and every Append is followed at once by a read of the same asset (visibility). Values cover all finite float64 incl. extremes; dates as the property restricts them. Concurrent histories (one writer per asset, 3-8 readers, plain and -race builds) are recorded with an atomic logical clock at the client boundary and every read is checked against the window of states its call/return interval admits (single-writer append-only linearizability, decided exactly because every appended snapshot is unique); the race detector watches the same runs.",
+  text="Random operation histories are applied in lock-step to a sequential map model and to the in-memory, file-system and SQL repositories (the SQL one through database/sql over an in-memory driver written for this purpose); every return value and error-ness is compared, and every Append is followed at once by a read of the same asset (visibility). Values cover all finite float64 incl. extremes; dates as the property restricts them. Concurrent histories (one writer per asset, 3-8 readers, plain and -race builds) are recorded with an atomic logical clock at the client boundary and every read is checked against the window of states its call/return interval admits (single-writer append-only linearizability, decided exactly because every appended snapshot is unique); the race detector watches the same runs. Histories also hand an unread Get stream to Append for another asset of the same repository, let several writers append to one asset of the in-memory repository (conservation and per-writer order), and append to an asset file that accepts no data (an error is required).",
   design_ref="DESIGN.md §3 C10, §7.4",
   note="Trusted: harness/internal/fakesql as the 'conforming driver' (rows in insertion order, statements take effect before returning); for a name appended only with empty batches either an empty result or an error is accepted (SQL cannot tell it from an unknown name); concurrent readers of the file-system/SQL repositories are not overlapped with the writer of the SAME asset (their streams are lazy; the property speaks of sequences of calls), the in-memory repository is.",
   technique="lock-step model-based runtime monitoring of operation histories over three implementations + recorded concurrent histories checked for linearizability (unique-value prefix windows) + Go race detector",
  ),
  "C11": dict(
   category="exploration",
-  text="Row structs covering every supported kind (also as named types that implement fmt.Stringer: time.Duration, time.Month, own enum/bool/uint16/string/float types) with values from the extremes of each kind go through random write/append/append-or-write histories on one file (always including a longer file overwritten by a shorter one, with and without header) and are read back and compared with a list model after every step; header permutation / extra columns are checked with files written directly by encoding/csv, also through one reused codec value; JSON streams are round-tripped for floats, ints, strings, times and a struct.",
+  text="Row structs covering every supported kind (also as named types that implement fmt.Stringer: time.Duration, time.Month, own enum/bool/uint16/string/float types) with values from the extremes of each kind go through random write/append/append-or-write histories on one file (always including a longer file overwritten by a shorter one, with and without header) and are read back and compared with a list model after every step; header permutation / extra columns are checked with files written directly by encoding/csv, also through one reused codec value; JSON streams are round-tripped for floats, ints, strings, times, a struct, values in interface-typed positions (any, map[string]any) and streams several buffers long. Extra CSV columns include ones whose names differ from a real header only in case or surrounding blanks.",
   design_ref="DESIGN.md §3 C11",
   note="Trusted: encoding/csv and encoding/json. The two-byte sequence CR LF inside strings is outside the domain (encoding/csv normalises it on read). One known finding: a lone empty string field.",
   technique="round-trip oracle + file-content list model over operation histories",
@@ -92,7 +92,7 @@ CHECKS = {
  ),
  "C13": dict(
   category="exploration",
-  text="Backtest is run with a recording Report whose online trace checker decides the notification protocol; exactly-once delivery per (asset, strategy); content equal to a direct evaluation inside the look-back window; equality of result sets across 1/2/3/8/16 workers; the bundled DataReport and HTMLReport are checked against the same direct evaluation (HTML pages parsed: presence, %.2f outcomes, non-increasing order, best entry maximal); the multi-worker runs are repeated under the race detector; a 'concurrent map writes' crash is attributed by the parent. cmd/indicator-backtest is executed end to end over a file-system repository and its HTML pages are compared with a direct evaluation of the tool's strategy list.",
+  text="Backtest is run with a recording Report whose online trace checker decides the notification protocol; exactly-once delivery per (asset, strategy); content equal to a direct evaluation inside the look-back window; equality of result sets across 1/2/3/8/16 workers; the bundled DataReport and HTMLReport are checked against the same direct evaluation (HTML pages parsed: presence, %.2f outcomes, last action / periods it has stood / number of Buy-Sell recommendations per row, non-increasing order, best entry maximal; a strategy whose individual report file cannot be written may be missing from the page but never shown with other figures); the multi-worker runs are repeated under the race detector; a 'concurrent map writes' crash is attributed by the parent. cmd/indicator-backtest is executed end to end over a file-system repository and its HTML pages are compared with a direct evaluation of the tool's strategy list.",
   design_ref="DESIGN.md §3 C13",
   note="Trusted: snapshot dates are generated relative to the current day and kept >= 2 days from the window edge, so time.Now() inside Backtest never decides a verdict.",
   technique="online protocol trace checker + exactly-once/content oracle + race detector over worker pools",
@@ -106,7 +106,7 @@ CHECKS = {
  ),
  "C19": dict(
   category="fault_enumeration",
-  text="Every truncation offset of small valid documents, stacked grammar-aware corruptions and byte mutations are fed to the CSV reader (5 row shapes, with/without header, via reader and via file), the JSON stream reader and the Tiingo repository (13 status codes x body kinds through a fake RoundTripper, no network). Decided per document: no panic, the stream closes (runtime deadlock detector), delivered rows equal the records of the well-formed prefix computed by an independent reference, no goroutine left behind, response bodies closed, non-200 / missing files surface as errors.",
+  text="Every truncation offset of small valid documents, stacked grammar-aware corruptions and byte mutations are fed to the CSV reader (5 row shapes, with/without header, via reader and via file), the JSON stream reader and the Tiingo repository (13 status codes x body kinds through a fake RoundTripper, no network). Row types with fields the codec does not support (a named type built on time.Time, nested structs, pointers, slices) are read as well; the Tiingo repository is also obtained through asset.NewRepository and driven through Get / Assets / Append. Decided per document: no panic, the stream closes (runtime deadlock detector), delivered rows equal the records of the well-formed prefix computed by an independent reference, no goroutine left behind, response bodies closed, non-200 / missing files surface as errors.",
   design_ref="DESIGN.md §3 C19",
   note="Trusted: encoding/csv / encoding/json tokenisation (the reference uses the same standard-library tokenisers but its own field parsing). Closing the response body stands for 'no goroutine left behind' of the real HTTP transport. Unreadable-by-permission files cannot be produced as root.",
   technique="fault enumeration (all truncation offsets + corruption grammar) with crash/deadlock attribution, well-formed-prefix reference and goroutine census",
